@@ -249,10 +249,31 @@ TRUSTED_BASE = [
 ]
 
 
+_scratch_gen = []
+
+
+def generated_dir(chk):
+    """where the translators write: lean/PygyroVerif/Generated when the run builds the Lean modules; a scratch directory when it does
+    not (--no-build: nothing reads the generated modules, a refusal of the translator is still detected, and concurrent runs against
+    other trees do not overwrite each other's generated files)"""
+    if not getattr(chk, 'no_build', False):
+        return str(LEAN / 'PygyroVerif' / 'Generated')
+    if not _scratch_gen:
+        import tempfile
+        _scratch_gen.append(tempfile.mkdtemp(prefix='pggen'))
+    return _scratch_gen[0]
+
+
+def cleanup_scratch():
+    import shutil
+    while _scratch_gen:
+        shutil.rmtree(_scratch_gen.pop(), ignore_errors=True)
+
+
 def run_translator(chk, script, *args):
     """runs a source->Lean translator of harness/ against the repo under test; a refusal is a broken proof obligation"""
     import subprocess
-    tr = subprocess.run(['/venv/bin/python', str(VERIF / 'harness' / script), '--repo', str(REPO), '--quiet'] + list(args),
+    tr = subprocess.run(['/venv/bin/python', str(VERIF / 'harness' / script), '--repo', str(REPO), '--quiet', '--out', generated_dir(chk)] + list(args),
                         capture_output=True, text=True)
     if tr.returncode != 0:
         chk.proof_broken.append({'theorem': 'translator (harness/%s %s) refused the source' % (script, ' '.join(args)),
